@@ -322,3 +322,50 @@ Proof.
   vm_compute in E. injection E as <- _. eexists _, _. split; [exact Hr|].
   vm_compute. repeat split.
 Qed.
+
+
+(* ========================================================================================== *)
+(* Cross-model links (appended; owner: the links, docs/Link.md section L1)                      *)
+(* ========================================================================================== *)
+(* The backlog whose size the write-complete / high-water-mark callbacks track is, in Conn_Model,
+   the length of the list outb.  Over two concrete Buffers (Link_ConnBuf_Model; the machine and
+   the abstraction [abs] are quoted as equations in Properties_C01.v, section "Cross-model
+   links") it is outputBuffer_.readableBytes().  B = C10_Model, BP = C10_Proofs. *)
+From Muduo Require Import Link_ConnBuf_Model Link_ConnBuf Link_Properties_L1.
+
+(* in every state whose buffers are reachable Buffer states, the lengths Conn_Model's theorems
+   speak of are the readableBytes() of the two Buffers *)
+Theorem C13_backlog_is_readableBytes : forall c,
+  (exists lo li, BP.reach (obuf c, ibuf c) (lo, li)) ->
+  length (outb (abs c)) = B.readableBytes (obuf c) /\ length (inb (abs c)) = B.readableBytes (ibuf c).
+Proof. exact abs_backlog. Qed.
+Print Assumptions C13_backlog_is_readableBytes.
+
+(* C13_hwm_iff_crossing on the real buffer: a step of the connection over real Buffers that runs a
+   sendInLoop queues the high-water-mark callback iff it is installed and
+   outputBuffer_.readableBytes() rises from below the mark to at or above it; the callback's
+   argument is the new readableBytes() *)
+Theorem C13_hwm_iff_readableBytes_crosses : forall c o c' e,
+  (exists lo li, BP.reach (obuf c, ibuf c) (lo, li)) -> cop_wf o = true -> c_step c o = Ok (c', e) ->
+  forall d k p, send_of (abs c) (abs_op c o) = Some (d, k, p) ->
+  forall n, pending (ctl c') = p ++ [FHighWater n] <->
+    has_hwm (ctl c) = true /\
+    (N.of_nat (B.readableBytes (obuf c)) < hwm (ctl c) <= N.of_nat (B.readableBytes (obuf c')))%N /\
+    n = B.readableBytes (obuf c').
+Proof. exact c_hwm_crossing. Qed.
+Print Assumptions C13_hwm_iff_readableBytes_crosses.
+
+(* every theorem of this file about reachable Conn_Model states holds over real Buffers *)
+Theorem C13_transfer_to_real_buffers : forall P : conn -> Prop,
+  (forall a, reach a -> P a) -> forall c, c_reach c -> P (abs c).
+Proof. exact L1_transfer. Qed.
+Print Assumptions C13_transfer_to_real_buffers.
+
+(* non-vacuity: mark 4, a send of 6 bytes of which the kernel takes 1: readableBytes() goes 0 -> 5,
+   the callback is queued with argument 5 *)
+Example C13_link_ex_crossing :
+  match c_run (c_init 4 true true) [COp Establish; COp (Send (repeat l1_a 6) (Accept 1))] with
+  | Ok (c, _) => B.readableBytes (obuf c) = 5 /\ pending (ctl c) = [FHighWater 5]
+  | _ => False
+  end.
+Proof. vm_compute. auto. Qed.
